@@ -35,6 +35,8 @@ pub struct Stats {
   pub tasks_polled: AtomicU64,
   pub multi_ready_decisions: AtomicU64,
   pub clock_jumps_over_2: AtomicU64,
+  /// value of the global event sequence at each task spawn
+  pub spawn_stamps: Mutex<Vec<u64>>,
 }
 
 /// State of one run that may be touched from wakers and timer futures, i.e.
@@ -509,6 +511,7 @@ impl LocalSpawn for SimSpawner {
   fn spawn_local_obj(&self, future: LocalFutureObj<'static, ()>) -> Result<(), SpawnError> {
     let c = ctx().expect("spawn outside a simulation");
     c.shared.stats.tasks_spawned.fetch_add(1, SeqCst);
+    c.shared.stats.spawn_stamps.lock().unwrap().push(c.shared.seq.load(SeqCst));
     let real = REAL_POOL.with(|p| p.borrow().clone());
     if let Some(real) = real {
       return real.spawn_local_obj(future);
@@ -527,6 +530,7 @@ impl Spawn for SimSpawner {
   fn spawn_obj(&self, future: FutureObj<'static, ()>) -> Result<(), SpawnError> {
     let c = ctx().expect("spawn outside a simulation");
     c.shared.stats.tasks_spawned.fetch_add(1, SeqCst);
+    c.shared.stats.spawn_stamps.lock().unwrap().push(c.shared.seq.load(SeqCst));
     match c.mode {
       Mode::Des(exec) => {
         if let Some(ts) = crate::threadsim::pending_pool() {
